@@ -29,6 +29,12 @@ def dispatch(prop, tier):
     if prop in ('C08', 'C09'):
         from harness.checks import cppraw
         return getattr(cppraw, 'run_' + prop.lower())(tier)
+    if prop == 'C10':
+        from harness.checks import api
+        return api.run_c10(tier)
+    if prop == 'C11':
+        from harness.checks import copy
+        return copy.run_c11(tier)
     raise core.Infra('no check registered for %s' % prop)
 
 
